@@ -78,7 +78,7 @@ def input_hash(repo, config):
     return h.hexdigest()
 
 
-def extract(repo, config, outdir, packages=("rawdb", "vecdb"), dump=("rawdb", "vecdb"), extra_args=()):
+def extract(repo, config, outdir, packages=("rawdb", "vecdb"), dump=("rawdb", "vecdb"), extra_args=(), require=None):
     """Run cargo check with the driver as workspace wrapper; facts land in outdir."""
     build_driver()
     os.makedirs(outdir, exist_ok=True)
@@ -112,7 +112,7 @@ def extract(repo, config, outdir, packages=("rawdb", "vecdb"), dump=("rawdb", "v
         if rc != 0:
             sys.stderr.write(out[-6000:])
             raise RuntimeError("fact extraction failed (cargo check exit %d)" % rc)
-        for d in dump:
+        for d in (require if require is not None else dump):
             if not os.path.exists(os.path.join(outdir, d + ".json")):
                 sys.stderr.write(out[-3000:])
                 raise RuntimeError("fact file missing for crate %s (driver skipped?)" % d)
